@@ -23,6 +23,10 @@ class Gen:
         self.nlab = 0
         self.sections = []     # (name, size in bytes, [(offset, type)] loadable cells, writable)
         self.features = features or {}
+        self.chunks = []       # (name, kind, index of its first line): data sections and functions, contiguous up to endmodule
+
+    def chunk(self, name, kind):
+        self.chunks.append((name, kind, len(self.lines)))
 
     def lab(self, p='L'):
         self.nlab += 1
@@ -52,6 +56,7 @@ class Gen:
         nsec = r.randint(2, 4)
         for si in range(nsec):
             name = 'dat%d' % si
+            self.chunk(name, 'data')
             nitems = r.choice([1, 1, 2, 3, 4]) if self.features.get('multi', True) else 1
             off = 0
             cells = []
@@ -80,11 +85,13 @@ class Gen:
                 first = False
             self.sections.append((name, off, cells, False))
         # a writable scratch area and a reference to a data section
+        self.chunk('wbuf', 'data')
         self.emit('bss 64', 'wbuf')
         self.sections.append(('wbuf', 64, [], True))
         tgt = r.choice([s for s in self.sections if s[1] >= 8 and not s[3]] or [self.sections[0]])
         self.refdisp = r.choice([0, 1, 4]) if tgt[1] > 4 else 0
         self.reftgt = tgt
+        self.chunk('ref0', 'data')
         self.emit('ref %s, %d' % (tgt[0], self.refdisp), 'ref0')
 
     # ------------------------------------------------------------ code helpers
@@ -360,6 +367,85 @@ class Gen:
         if scoped:
             self.emit('bend p2')
 
+    def alloca_loop_block(self, regs):
+        """the SAME alloca insn executed several times in one activation while the earlier blocks are still in use: every
+        execution must give a fresh block (MIR.md: the memory is freed at function return / bend, not before).  Shapes: a
+        linked list of stack nodes walked afterwards (bounded walk: a self-loop ends after 8 steps), or a table of block
+        addresses kept in the scratch buffer and read back after the loop.  Sizes: constant, register, growing per iteration."""
+        r = self.rng
+        cnt = r.choice(['2', '3', '5', 'var'])
+        if cnt == 'var':
+            self.emit('and t7, %s, 3' % r.choice(regs))
+            self.emit('add t7, t7, %d' % r.choice([0, 1, 2]))       # 0..5 iterations of a do-while: at least one
+        else:
+            self.emit('mov t7, %s' % cnt)
+        szk = r.choice(['const', 'const', 'reg', 'grow'])
+        n = r.choice([16, 16, 24, 32, 48, 256])
+        seedreg = r.choice(regs)
+        l, w, we = self.lab(), self.lab(), self.lab()
+        table = r.random() < 0.4
+        scoped = r.random() < 0.25
+        if scoped:
+            self.emit('bstart p0')
+        self.emit('mov p2, 0')
+        self.emit('mov i3, 0')
+        if table:
+            self.emit('mov p3, wbuf')
+        if szk == 'reg':
+            self.emit('mov t8, %d' % n)
+        self.lines.append('%s:' % l)
+        if r.random() < 0.5:
+            self.emit('add t9, i3, 1')
+        if szk == 'const':
+            self.emit('alloca p1, %d' % n)
+        elif szk == 'reg':
+            self.emit('alloca p1, t8')
+        else:
+            self.emit('lsh t8, i3, 4')
+            self.emit('add t8, t8, %d' % n)
+            self.emit('alloca p1, t8')
+        self.emit('eq t9, p1, p2')                 # never the block of the previous execution
+        self.acc('t9')
+        self.emit('and t9, p1, 15')
+        self.acc('t9')
+        self.emit('mov i64:0(p1), p2')
+        self.emit('mul t9, i3, 1000003')
+        self.emit('add t9, t9, %s' % seedreg)
+        self.emit('mov i64:8(p1), t9')
+        if n >= 24:
+            self.emit('mov i64:%d(p1), i3' % (n - 8))    # the last word of the block
+        if table:
+            self.emit('mov i64:0(p3, i3, 8), p1')
+        self.emit('mov p2, p1')
+        self.emit('add i3, i3, 1')
+        self.emit('blt %s, i3, t7' % l)
+        if table:
+            # read every block back through the table, first to last, and clear the table (no stack address in the dump)
+            self.emit('mov i3, 0')
+            self.lines.append('%s:' % w)
+            self.emit('mov p1, i64:0(p3, i3, 8)')
+            self.emit('mov i64:0(p3, i3, 8), 0')
+            self.emit('mov t9, i64:8(p1)')
+            self.acc('t9')
+            if n >= 24:
+                self.emit('mov t9, i64:%d(p1)' % (n - 8))
+                self.acc('t9')
+            self.emit('add i3, i3, 1')
+            self.emit('blt %s, i3, t7' % w)
+        # walk the list from the last node: payloads in reverse order, number of nodes
+        self.emit('mov i3, 0')
+        self.lines.append('%sb:' % w)
+        self.emit('bf %s, p2' % we)
+        self.emit('mov t9, i64:8(p2)')
+        self.acc('t9')
+        self.emit('mov p2, i64:0(p2)')
+        self.emit('add i3, i3, 1')
+        self.emit('blt %sb, i3, 8' % w)
+        self.lines.append('%s:' % we)
+        self.acc('i3')
+        if scoped:
+            self.emit('bend p0')
+
     def addr_block(self, regs):
         r = self.rng
         self.emit('mov v0, %s' % r.choice(regs))
@@ -455,7 +541,9 @@ class Gen:
                 self.lines.append('# ---')      # self-contained unit: the shrinker removes whole units only
             k = r.random()
             dst = r.choice(['t0', 't1', 't2', 't3'])
-            if k < 0.3:
+            if k < 0.05:
+                self.alloca_loop_block(regs)
+            elif k < 0.3:
                 self.int_op(regs, dst)
                 self.acc(dst)
             elif k < 0.42:
@@ -486,6 +574,67 @@ class Gen:
                 self.int_op(regs, dst)
                 self.acc(dst)
 
+    def layout(self):
+        """module-level order: every data section and helper function is placed before `entry` (as always before) or
+        AFTER it behind a `forward` declaration -- callers before callees, uses before definitions --, exported or not, the
+        `export` before the forward, after it, or after the definition; now and then a (redundant) forward after the
+        definition or two forwards of one name.  The content of the items does not change."""
+        r = random.Random(self.rng.getrandbits(32))
+        ch = self.chunks
+        first = ch[0][2]
+        head = self.lines[:first]
+        body = {}
+        for k, (name, kind, start) in enumerate(ch):
+            end = ch[k + 1][2] if k + 1 < len(ch) else len(self.lines)
+            body[name] = self.lines[start:end]
+        early, late, decl = [], [], []
+        place = {}
+        for name, kind, _ in ch:
+            if kind == 'entry':
+                continue
+            islate = r.random() < (0.5 if kind == 'func' else 0.35)
+            if name == 'ref0':
+                # a reference item stays before entry and behind the definition or the forward of the item it refers to
+                # (mir2c prints a forwarded data item at its forward: a `ref` to an item still undeclared there is not
+                # translatable -- recorded in design/C20.md, not generated)
+                islate = False
+            place[name] = 'late' if islate else 'early'
+            exp = r.choice(['no', 'no', 'before', 'after', 'afterdef'])
+            fw = '%-8s forward %s' % ('', name)
+            ex = '%-8s export %s' % ('', name)
+            lines = list(body[name])
+            if islate:
+                d = {'no': [fw], 'before': [ex, fw], 'after': [fw, ex], 'afterdef': [fw]}[exp]
+                if r.random() < 0.1:
+                    d = d + [fw]                   # declared twice
+                decl.append(d)
+                late.append(lines + ([ex] if exp == 'afterdef' else []))
+            else:
+                k2 = r.random()
+                pre = [fw] if k2 < 0.15 else []
+                post = [fw] if 0.15 <= k2 < 0.3 else []
+                if exp in ('before', 'after'):
+                    pre = ([ex] + pre) if exp == 'before' else (pre + [ex])
+                elif exp == 'afterdef':
+                    post = post + [ex]
+                if name == 'ref0':
+                    refchunk = pre + lines + post
+                    continue
+                early.append(pre + lines + post)
+        # forward declarations anywhere among the early items (before entry)
+        for d in decl:
+            early.insert(r.randint(0, len(early)), d)
+        early.append(refchunk)
+        out = list(head)
+        for c in early:
+            out += c
+        out += body['entry']
+        r.shuffle(late)
+        for c in late:
+            out += c
+        self.lines = out
+        self.placed = place
+
     def module(self, name='m_c20'):
         r = self.rng
         self.emit('module', name)
@@ -505,6 +654,7 @@ class Gen:
         self.emit('proto d, d:x, f:y', 'p_h2')
         self.gen_data()
         # helper with narrow / unsigned integer parameters feeding conversions and arithmetic
+        self.chunk('h1', 'func')
         self.emit('func i64, %s:a, %s:b, %s:c, %s:d' % tuple(pt), 'h1')
         self.emit('local i64:r, d:x, f:y, i64:t')
         self.emit('i2d x, d')
@@ -524,6 +674,7 @@ class Gen:
         self.emit('add r, r, t')
         self.emit('ret r')
         self.emit('endfunc')
+        self.chunk('h2', 'func')
         self.emit('func d, d:x, f:y', 'h2')
         self.emit('local d:z')
         self.emit('f2d z, y')
@@ -532,6 +683,7 @@ class Gen:
         self.emit('ret z')
         self.emit('endfunc')
         # variadic MIR function: va_start / va_arg of i64, d and ld arguments / va_end
+        self.chunk('hva', 'func')
         self.emit('func i64, i64:n, i64:tags, ...', 'hva')
         self.emit('local i64:va, i64:s, i64:i, i64:p, i64:t, d:x, ld:l')
         self.emit('alloca va, 32')
@@ -567,6 +719,7 @@ class Gen:
         self.emit('ret s')
         self.emit('endfunc')
         if self.features.get('blk', BLK_ARGS):
+            self.chunk('hblk', 'func')
             self.emit('func i64, i64:n, blk:16(s)', 'hblk')
             self.emit('local i64:t')
             self.emit('add t, i64:(s), i64:8(s)')
@@ -575,6 +728,7 @@ class Gen:
             self.emit('add t, t, i64:(s)')
             self.emit('ret t')
             self.emit('endfunc')
+            self.chunk('hvblk', 'func')
             self.emit('func i64, i64:n, ...', 'hvblk')
             self.emit('local i64:va, i64:a, i64:t')
             self.emit('alloca va, 32')
@@ -585,14 +739,15 @@ class Gen:
             self.emit('va_end va')
             self.emit('ret t')
             self.emit('endfunc')
+        self.chunk('entry', 'entry')
         self.emit('func i64, i64:a, i64:b', 'entry')
-        self.emit('local i64:acc, i64:t0, i64:t1, i64:t2, i64:t3, i64:t7, i64:t8, i64:t9, i64:p0, i64:p1, i64:p2, i64:v0, i64:i1, i64:i2, d:d0, d:d1, d:d2, d:dv, f:f0, f:f1, ld:l0, ld:l1')
+        self.emit('local i64:acc, i64:t0, i64:t1, i64:t2, i64:t3, i64:t7, i64:t8, i64:t9, i64:p0, i64:p1, i64:p2, i64:v0, i64:i1, i64:i2, i64:i3, i64:p3, d:d0, d:d1, d:d2, d:dv, f:f0, f:f1, ld:l0, ld:l1')
         self.emit('mov acc, 7')
         self.emit('mov t0, a')
         self.emit('mov t1, b')
         self.emit('add t2, a, b')
         self.emit('xor t3, a, 305419896')
-        for reg in ('t7', 't8', 't9', 'p0', 'p1', 'p2', 'v0', 'i1', 'i2'):     # every register is defined: any sub-sequence of the body stays well-defined
+        for reg in ('t7', 't8', 't9', 'p0', 'p1', 'p2', 'p3', 'v0', 'i1', 'i2', 'i3'):     # every register is defined: any sub-sequence of the body stays well-defined
             self.emit('mov %s, 0' % reg)
         self.emit('dmov d0, 1.0')
         self.emit('dmov d1, 2.0')
@@ -621,6 +776,8 @@ class Gen:
         self.lines.append('# ---')
         self.emit('ret acc')
         self.emit('endfunc')
+        if self.features.get('forward', True):
+            self.layout()
         self.emit('endmodule')
         # the text scanner of /repo rejects a label-only line that is followed by a comment-only or empty line ("insn should
         # start with label or insn name"): give such labels an instruction of their own
